@@ -10,8 +10,8 @@ R03.6 progress: every iteration consumes at least one unit
 """
 import re
 
-from ..interp import Interp, Budget, Unmodelled
-from ..state import IntV, PtrV
+from ..interp import Interp, Budget, Unmodelled, Hooks
+from ..state import IntV, PtrV, State
 from ..terms import Lin, ZERO
 from . import conv
 from .common import short, fn_loc
@@ -395,6 +395,37 @@ def wrappers(run, m, F, E, pairs):
     return nw, ne
 
 
+def error_codes(run, m, F, E):
+    """R03.9: every enumerator of conversion_error_t has a handler in raise_conversion_error: success returns, every other code
+    throws ST::unicode_error; no code reaches the 'Invalid conversion_error_t value' assertion."""
+    en = m.enums.get('_ST_PRIVATE::conversion_error_t')
+    run.need(en, 'enum conversion_error_t not in debug info')
+    fs = [m.func(x) for x in F.lib if m.func(x).dem == '_ST_PRIVATE::raise_conversion_error(_ST_PRIVATE::conversion_error_t)']
+    run.need(fs, 'raise_conversion_error not found')
+    f = fs[0]
+    n = 0
+    for nm, val in sorted(en.items(), key=lambda x: x[1]):
+        n += 1
+        I = Interp(m, F, E, Hooks())
+        st = State()
+        outs = I.run(I.start(f, [IntV(32, Lin.const(val), 'u')], st))
+        kinds = sorted(set(o.kind for o in outs))
+        if nm == 'success':
+            ok = kinds == ['ret']
+            msg = 'returns' if ok else 'success ends in %s' % kinds
+        else:
+            thrown = set()
+            for o in outs:
+                if o.kind == 'throw':
+                    t = o.val[0] if o.val else None
+                    thrown |= set(t if isinstance(t, (tuple, list)) else [t])
+            ok = kinds == ['throw'] and thrown == {'ST::unicode_error'}
+            msg = 'throws ST::unicode_error' if ok else ('error code %s reaches %s: an input-dependent code without a handler aborts the process' % (nm, kinds)
+                                                         if 'abort' in kinds else 'error code %s ends in %s %s' % (nm, kinds, sorted(thrown, key=str)))
+        run.ob('R03.9', 'raise_conversion_error(%s)' % nm, ok, msg, loc=fn_loc(f), disc='code %d' % val)
+    return n
+
+
 def check(run):
     m = run.module()
     F = run.facts()
@@ -406,5 +437,6 @@ def check(run):
     nw, ne = wrappers(run, m, F, E, pairs)
     run.floor('wrappers calling a convert loop', nw, 12)
     run.floor('conversion entry points (st_utf_conv.h)', ne, 36)
+    run.floor('conversion error codes', error_codes(run, m, F, E), 6)
     for o in run.obs[:4]:
         run.sample(dict(rule=o['rule'], pair=o['subject'], case=o['disc'], verdict=o['verdict'], detail=o['detail'][:200]))
